@@ -377,6 +377,8 @@ def run(m, tier):
     r10 = reader_rules.replace_map_table_rule(m, "C03.R10")
     r10.title = "no real literal with a signed exponent stays visible after string_replace_map (its sign would be split as an operator): " + r10.title
     results.append(r10)
+    from rules import two_roundtrip
+    results.append(two_roundtrip.expression_grouping_rule(m, "C03.R11"))
     expl = ("Decides structural clauses of C03: the 12-level expression table extracted from the match methods equals the standard's "
             "(operator, operand classes, split side, fall-through; Parenthesis wraps Expr under Primary); the generic binary engine, "
             "specialised for right=True/False, reaches a match only after the rightmost/leftmost split and builds each operand from its "
